@@ -56,6 +56,14 @@ var hSettings = []hSetting{
 // defaults, urfave/cli, options.Load). The configuration file is at the default location
 // ($HOME/.hranoprovod/config), named by --config or named by HR_CONFIG; a named file that does
 // not exist is an error, a missing default file is not.
+func hCfgPreamble() string {
+	p := ""
+	for i := 0; i < 100; i++ {
+		p += "; hranoprovod-cli configuration: a comment line\n"
+	}
+	return p
+}
+
 func Harness_app_settings() {
 	// 0 no file; 1 default location; 2 --config; 3 HR_CONFIG; 4 --config missing; 5 HR_CONFIG missing;
 	// 6 both --config (present, wins) and HR_CONFIG (other file)
@@ -101,6 +109,11 @@ func Harness_app_settings() {
 		ini["Global"] += "Now = 2021-01-24T00:00:00Z\n"
 	}
 	text := "[Global]\n" + ini["Global"] + "[Resolver]\n" + ini["Resolver"]
+	if hasCfg && verifChoose("cfg-preamble", 2) == 1 {
+		// a file longer than one buffer (4096 bytes): about 5 KiB of comments before the settings
+		verifLabel("cfg-preamble", "5 KiB of comment lines before the first section")
+		text = hCfgPreamble() + text
+	}
 	switch cfgMode {
 	case 1:
 		verifHomeFile("/.hranoprovod/config", text)
@@ -283,6 +296,7 @@ var hFileCmds = []hFileCmd{
 	{"report-quantity", []string{"report", "quantity"}, true, false},
 	{"report-totals", []string{"report", "totals"}, true, true},
 	{"stats", []string{"stats"}, true, true},
+	{"register-single-element", []string{"reg", "-s", "x"}, true, true},
 }
 
 const hAppLog = "2021/01/01:\n  f1: 2\n  x: 1\n  unknown: 3\n2021/01/02:\n  f0: 1.5\n"
